@@ -226,7 +226,15 @@ fn pow(a: Decimal, b: Decimal, q: Q) -> R {
         if !b.fract().is_zero() {
             return RV::Unspec("U3: negative base with a fractional exponent");
         }
+        if y.abs() >= 9007199254740992.0 {
+            // the parity of the exponent is lost in the double
+            return RV::Unspec("U3: negative base with an exponent beyond 2^53");
+        }
         return from_f64(q, x.powf(y));
+    }
+    if (y * x.abs().ln()).abs() > 1e5 {
+        // the double-precision oracle cannot deliver 1e-9 relative here
+        return RV::Unspec("U3: power too ill-conditioned for the double-precision oracle");
     }
     from_f64(q, x.powf(y))
 }
